@@ -95,6 +95,14 @@ def gen_map(rng, existing: typing.List[bytes], allow_relative: bool) -> bytes:
     return text
 
 
+def on_gopher_wire(want: typing.List[tuple]) -> typing.List[tuple]:
+    """What a Gopher menu can say of these entries: a line ends at CR LF, so a CR inside a field (a gophermap line ends
+    at LF only and may hold one) is written as a blank.  Which entries there are, and every other byte, is unchanged."""
+    def f(x):
+        return x.replace(b"\r", b" ") if isinstance(x, bytes) else x
+    return [(t[0], f(t[1]), f(t[2]), f(t[3]), t[4]) for t in want]
+
+
 def to_class(t: tuple) -> tuple:
     typ, name, sel, host, port = t
     if typ == "i":
@@ -160,6 +168,8 @@ def run_case(chk: Check, sc: Scratch, idx: int) -> None:
             chk.witness("C09/listing-failed:gopher", dict(sample, reply=resp.data[:300], log=resp.log[:3], reason=v.reason,
                                                          escaped=resp.escaped[:1]))
             return
+        wire_want = want
+        want = on_gopher_wire(want)
         got = observed(v.parsed, want)
         if got != want:
             i = next((k for k, (a, b) in enumerate(zip(got, want)) if a != b), min(len(got), len(want)))
@@ -174,8 +184,8 @@ def run_case(chk: Check, sc: Scratch, idx: int) -> None:
             chk.witness("C09/gopher-line-differs:%s" % what, dict(sample, index=i, got=got[i:i + 2], want=want[i:i + 2]))
             return
         # every other protocol: same entries in the same order
-        ref_classes = [to_class(x) for x in want]
         for view in ("gophers", "gopherp+", "gopherp$", "http", "https", "wap", "gemini", "spartan"):
+            ref_classes = [to_class(x) for x in (want if reqs.VIEWS[view][0] in ("gopher", "gopherp") else wire_want)]
             ents, r2, v2 = c06.listing(chk, site, view, sel)
             if ents is None:
                 chk.witness("C09/listing-failed:%s" % reqs.VIEWS[view][0], dict(sample, view=view, reply=r2.data[:300], reason=v2.reason))
@@ -200,7 +210,7 @@ def run_case(chk: Check, sc: Scratch, idx: int) -> None:
             zsite.server.server_port = PORT
             try:
                 zsel = b"/packed.zip" + sel
-                zwant = gophermap_ref(text, zsel)
+                zwant = on_gopher_wire(gophermap_ref(text, zsel))
                 zreq, _ = reqs.render("gopher", zsel)
                 zresp = zsite.request(zreq)
                 zv = validate.validate(zresp, zreq)
@@ -232,7 +242,7 @@ def run_case(chk: Check, sc: Scratch, idx: int) -> None:
         os.utime(dpath, ns=(dst.st_atime_ns, dst.st_mtime_ns))
         resp2 = site.request(req)
         v2 = validate.validate(resp2, req)
-        want2 = gophermap_ref(text2, sel)
+        want2 = on_gopher_wire(gophermap_ref(text2, sel))
         got2 = []
         if v2.ok and v2.klass == "menu":
             got2 = observed(v2.parsed, want2)
